@@ -785,6 +785,126 @@ def r8_attribute_table_names_field_options(ctx):
     ctx.floor('attribute names in _ATTRIBUTE_DEFAULTS', n, 10)
 
 
+def r9_sibling_constructors_agree_on_empty(ctx):
+    """from_index()/from_constraint()/from_field() and deserialize() are
+    sibling constructors: both end in cls(...).  Where the from_* sibling
+    normalises an empty value of an argument to None (`x or None`), the
+    deserialising sibling must produce None for "key absent / empty" too
+    (a `.get(key)` without a non-None default, or `... or None`); otherwise
+    an object whose key was omitted when writing (because it was empty) comes
+    back with a different empty value and compares unequal."""
+    ctx.rule('R-C06.9')
+    p = ctx.program
+    n = 0
+    for cname in CLASSES:
+        cls = p.cls(SIG, cname)
+        des = cls.methods.get('deserialize')
+        frm = [m for m in cls.methods.values() if m.name.startswith('from_')]
+        if des is None or not frm:
+            continue
+        normalised = set()
+        for m in frm:
+            for c in walk_no_nested(m.node):
+                if isinstance(c, ast.Call) and isinstance(c.func, ast.Name) \
+                        and c.func.id == 'cls':
+                    for k in c.keywords:
+                        if k.arg and any(
+                                isinstance(x, ast.BoolOp) and
+                                isinstance(x.op, ast.Or) and
+                                isinstance(x.values[-1], ast.Constant) and
+                                x.values[-1].value is None
+                                for x in ast.walk(k.value)):
+                            normalised.add(k.arg)
+        if not normalised:
+            continue
+        g = ctx.cfg(des)
+        from ..flow import ReachingDefs
+        rd = ReachingDefs(g, des.params)
+        for node in g.nodes:
+            for c in node.calls():
+                if not (isinstance(c.func, ast.Name) and c.func.id == 'cls'):
+                    continue
+                for k in c.keywords:
+                    if k.arg not in normalised:
+                        continue
+                    n += 1
+                    bad = None
+                    for _on, oe in rd.origins(node, k.value):
+                        for x in ast.walk(oe):
+                            if isinstance(x, ast.Call) and \
+                                    call_name(x) == 'get' and \
+                                    len(x.args) >= 2 and not (
+                                        isinstance(x.args[1], ast.Constant)
+                                        and x.args[1].value is None):
+                                bad = x
+                    ors_none = any(
+                        isinstance(x, ast.BoolOp) and isinstance(x.op, ast.Or)
+                        and isinstance(x.values[-1], ast.Constant) and
+                        x.values[-1].value is None
+                        for x in ast.walk(k.value))
+                    if bad is not None and not ors_none:
+                        ctx.finding(des, bad, '%s.deserialize passes %s=... '
+                                    'from %s: an absent key becomes %s, while '
+                                    'the from_* constructor normalises an '
+                                    'empty %s to None - the reloaded object '
+                                    'differs from the one that was written' % (
+                                        cname, k.arg,
+                                        ' '.join(unparse(bad).split()),
+                                        unparse(bad.args[1]), k.arg),
+                                    key='empty-form-differs:%s' % k.arg)
+                    else:
+                        ctx.ok(des, '%s: absent/empty %s is None in both '
+                               'constructors' % (cname, k.arg), c)
+    ctx.floor('constructor arguments normalised with `or None`', n, 2)
+
+
+def r10_whitelist_names_not_class_attributes(ctx, rule_id='R-C06.10'):
+    """FieldSignature.deserialize skips every attribute name for which
+    hasattr(cls, name) is true ("stored on the class itself").  A class-level
+    attribute, method or property of FieldSignature that shares its name
+    with a field option in _ATTRIBUTE_DEFAULTS therefore makes that option
+    unloadable: it is written by serialize() and silently dropped by
+    deserialize()."""
+    ctx.rule(rule_id)
+    p = ctx.program
+    fs = p.cls(SIG, 'FieldSignature')
+    des = fs.methods.get('deserialize')
+    uses_hasattr = des is not None and any(
+        isinstance(c, ast.Call) and call_name(c) == 'hasattr' and c.args and
+        unparse(c.args[0]) == 'cls' for c in walk_no_nested(des.node))
+    if not uses_hasattr:
+        ctx.ok(des or ('django_evolution.signature', 'FieldSignature'),
+               'deserialize does not filter attribute names through '
+               'hasattr(cls, ...)')
+        return
+    _o, table = fs.find_attr('_ATTRIBUTE_DEFAULTS')
+    names = set()
+    if isinstance(table, ast.Dict):
+        for v in table.values:
+            if isinstance(v, ast.Dict):
+                names |= {const_str(k) for k in v.keys
+                          if k is not None and const_str(k)}
+    ctx.floor('field option names', len(names), 8)
+    members = set()
+    for k in fs.mro():
+        members |= set(k.methods) | set(k.class_attrs)
+        for st in k.node.body:
+            if isinstance(st, (ast.FunctionDef, ast.AsyncFunctionDef)):
+                members.add(st.name)
+    clash = sorted(names & members)
+    if clash:
+        for c in clash:
+            ctx.finding(('django_evolution.signature', 'FieldSignature'),
+                        None, 'FieldSignature defines a class-level member '
+                        'named %r, which is also a field option: '
+                        'deserialize() skips it (hasattr(cls, %r)), so a '
+                        'stored %s is lost on every load' % (c, c, c),
+                        key='option-shadowed-by-class-member:%s' % c)
+    else:
+        ctx.ok(des, 'no field option name is shadowed by a class member '
+               '(%d names)' % len(names))
+
+
 def r6_presence_not_value(ctx):
     """Whether a stored attribute is loaded must depend on the key being
     present, never on its value (explicit None / False / 0 are values)."""
@@ -841,3 +961,5 @@ def run(ctx):
     r5_dispatch_symmetry(ctx)
     r7_loader_type_accepted(ctx)
     r8_attribute_table_names_field_options(ctx)
+    r9_sibling_constructors_agree_on_empty(ctx)
+    r10_whitelist_names_not_class_attributes(ctx)
